@@ -319,7 +319,7 @@ func runSpendKeySets(r *vk.Run) int {
 	var outs []*fixOut
 	if r.Quick() {
 		outs = []*fixOut{fundF1[1], fundF1[5], fundF2[2]} // destinations (W0,1) (W1,2) and F2's third output; main and sub-addresses, RKey and AddKeys matches
-		outs = append(outs, fundF1[6])                     // (W2,0)
+		outs = append(outs, fundF1[6])                    // (W2,0)
 	} else {
 		outs = append(append([]*fixOut{}, fundF1...), fundF2...)
 	}
@@ -450,6 +450,7 @@ func runSpendKeySets(r *vk.Run) int {
 			return
 		}
 		wire := mustEncode(tx)
+		atomic.AddInt64(&distinctTx, 1)
 		cerr := mustDecodeUTXO(wire).CheckBasic(theCensor)
 		rep["spend_wire"] = hexb(wire)
 		switch {
@@ -612,6 +613,7 @@ func runBinding(r *vk.Run) int {
 				atomic.AddInt64(&earlier, 1)
 				return
 			}
+			atomic.AddInt64(&distinctTx, 1)
 			rep := replay{"base": b.spec.name, "mutation": name, "base_wire": hexb(b.wire), "case_wire": hexb(wire)}
 			if tx.PrefixHash() == basePrefix {
 				violated("prefix-hash-does-not-cover:"+class, fmt.Sprintf("%s: PrefixHash unchanged after %s", b.spec.name, name), rep)
